@@ -177,3 +177,34 @@ func Journal(format string, a ...any) {
 	fmt.Fprintf(f, format, a...)
 	f.Close()
 }
+
+// ReplayRequest returns the "replay" object of the violation file named by $VERIF_REPLAY (bin/check --replay), if any.
+func ReplayRequest() (map[string]any, bool) {
+	p := os.Getenv("VERIF_REPLAY")
+	if p == "" {
+		return nil, false
+	}
+	b, err := os.ReadFile(p)
+	if err != nil {
+		return nil, false
+	}
+	var doc struct {
+		Replay map[string]any `json:"replay"`
+	}
+	if json.Unmarshal(b, &doc) != nil || doc.Replay == nil {
+		return nil, false
+	}
+	return doc.Replay, true
+}
+
+// Ints converts a JSON array of numbers to []int.
+func Ints(v any) []int {
+	a, _ := v.([]any)
+	out := make([]int, 0, len(a))
+	for _, x := range a {
+		if f, ok := x.(float64); ok {
+			out = append(out, int(f))
+		}
+	}
+	return out
+}
